@@ -1,12 +1,13 @@
 (** C09 -- each VM kind presents the documented execution context.  Interpreter: the register initialisation regenerated from
     interpreter.rs (theories/InterpProofs.v).  Cranelift: the registers defined by build_function_prelude, regenerated into
     coq/gen/Clir.v (theories/ClirProofs.v).  x86-64 JIT: the prologue emitted by jit_compile for each VM kind, regenerated into
-    coq/gen/JitFrame.v, under the stack machine X86Stk.v (theories/JitFrameProofs.v).  The lib.rs wrappers (which pointers and
-    lengths each VM kind passes to the compiled code) are exercised by checks/C09.py on every VM kind and engine. *)
+    coq/gen/JitFrame.v, under the stack machine X86Stk.v (theories/JitFrameProofs.v).  lib.rs: the arguments each VM kind's execute_program / _jit / _cranelift hands to its
+    engine and the stores into the fixed metadata buffer, regenerated into coq/gen/LibWrap.v (theories/LibWrapProofs.v).
+    checks/C09.py probes all of it on every VM kind and engine. *)
 From Coq Require Import ZArith List Bool.
 From RbpfV Require Import MachInt Ebpf Cases Mem InterpDefs WellFormed Verifier Isa MemLemmas Interp InterpProofs.
-From RbpfV Require Import ClirSem ClirProofs X86Sem X86Seq X86Stk JitFrameProofs.
-From RbpfV.gen Require Import Interp Clir JitFrame.
+From RbpfV Require Import ClirSem ClirProofs X86Sem X86Seq X86Stk JitFrameProofs LibWrapProofs.
+From RbpfV.gen Require Import Interp Clir JitFrame LibWrap.
 Import ListNotations.
 Open Scope Z_scope.
 
@@ -72,7 +73,72 @@ Theorem C09_jit_prologue_fixed_metadata : forall R0 m0, (forall r, 0 <= R0 r < 2
     (forall x, 8 <= (x - A1 R0) mod 2 ^ 64 -> 8 <= (x - A2 R0) mod 2 ^ 64 -> mfix R0 m0 x = m5 R0 m0 x).
 Proof. exact jit_prologue_fixed. Qed.
 
+(** lib.rs, end to end.  [interp_r1], [jit_r1 flags], [cl_r1] give r1 at entry as a function of the arguments an engine
+    receives -- by C09_entry_values, C09_jit_entry_r1 and C09_cranelift_entry_r1 below; the wrappers regenerated from lib.rs
+    make that the metadata buffer for the two metadata VMs, the packet (0 if empty) for the raw VM and 0 for the no-data VM *)
+Theorem C09_jit_entry_r1 : forall flags R0 m0, (forall r, 0 <= R0 r < 2 ^ 64) -> 1024 <= R0 4 ->
+  (fst flags = false -> snd flags = false) ->
+  (flags = (true, true) -> apart (A1 R0) (A2 R0) /\ apart (A2 R0) (A1 R0) /\ forall a, In a (slots R0) -> apart (A1 R0) a /\ apart (A2 R0) a) ->
+  exists R m, krun (body_of (prologue_of flags)) (R0, m0) = Some (R, m) /\
+              R 7 = jit_r1 flags [R0 7; R0 6; R0 2; R0 1; R0 8; R0 9] /\ R 10 = R0 2.
+Proof. exact jit_r1_is_prologue. Qed.
+
+Theorem C09_cranelift_entry_r1 : forall p0 p1 p2 p3 ss sz,
+  0 <= p0 < 2 ^ 64 -> 0 <= p2 < 2 ^ 64 -> 0 <= p3 < 2 ^ 64 -> 0 <= ss -> 0 <= sz -> ss + sz < 2 ^ 64 ->
+  reg_lookup 1 (gen_prelude_regs p0 p1 p2 p3 ss sz) = Some (cl_r1 [p0; p1; p2; p3]).
+Proof. exact cl_r1_is_prelude. Qed.
+
+Theorem C09_r1_every_kind_every_engine : forall mem_ptr mem_len mb_ptr mb_len buf_ptr buf_len d e dangling,
+  (mb_len <> 0 ->
+     interp_r1 (w_args (gen_wrap_mbuff_interp mem_ptr mem_len mb_ptr mb_len buf_ptr buf_len d e dangling)) = mb_ptr /\
+     jit_r1 gen_jit_flags_mbuff (w_args (gen_wrap_mbuff_jit mem_ptr mem_len mb_ptr mb_len buf_ptr buf_len d e dangling)) = mb_ptr /\
+     cl_r1 (w_args (gen_wrap_mbuff_cl mem_ptr mem_len mb_ptr mb_len buf_ptr buf_len d e dangling)) = mb_ptr) /\
+  (buf_len <> 0 ->
+     interp_r1 (w_args (gen_wrap_fixed_interp mem_ptr mem_len mb_ptr mb_len buf_ptr buf_len d e dangling)) = buf_ptr /\
+     jit_r1 gen_jit_flags_fixed (w_args (gen_wrap_fixed_jit mem_ptr mem_len mb_ptr mb_len buf_ptr buf_len d e dangling)) = buf_ptr /\
+     cl_r1 (w_args (gen_wrap_fixed_cl mem_ptr mem_len mb_ptr mb_len buf_ptr buf_len d e dangling)) = buf_ptr) /\
+  (interp_r1 (w_args (gen_wrap_raw_interp mem_ptr mem_len mb_ptr mb_len buf_ptr buf_len d e dangling)) = (if mem_len =? 0 then 0 else mem_ptr) /\
+   jit_r1 gen_jit_flags_raw (w_args (gen_wrap_raw_jit mem_ptr mem_len mb_ptr mb_len buf_ptr buf_len d e dangling)) = (if mem_len =? 0 then 0 else mem_ptr) /\
+   cl_r1 (w_args (gen_wrap_raw_cl mem_ptr mem_len mb_ptr mb_len buf_ptr buf_len d e dangling)) = (if mem_len =? 0 then 0 else mem_ptr)) /\
+  (interp_r1 (w_args (gen_wrap_nodata_interp mem_ptr mem_len mb_ptr mb_len buf_ptr buf_len d e dangling)) = 0 /\
+   jit_r1 gen_jit_flags_nodata (w_args (gen_wrap_nodata_jit mem_ptr mem_len mb_ptr mb_len buf_ptr buf_len d e dangling)) = 0 /\
+   cl_r1 (w_args (gen_wrap_nodata_cl mem_ptr mem_len mb_ptr mb_len buf_ptr buf_len d e dangling)) = 0).
+Proof. exact wrappers_r1. Qed.
+
+(** the fixed-metadata VM: on every execution (the stores are unconditional) the interpreter and Cranelift wrappers put the
+    packet address at offset d and the address one past the packet at offset e of the internal buffer, or fail; the JIT
+    wrapper passes buffer, packet and offsets to the prologue, which makes the same two stores (C09_fixed_jit_words); no
+    other wrapper writes anything *)
+Theorem C09_fixed_metadata_words : forall mem_ptr mem_len mb_ptr mb_len buf_ptr buf_len d e dangling,
+  w_writes (gen_wrap_fixed_interp mem_ptr mem_len mb_ptr mb_len buf_ptr buf_len d e dangling) = [(true, d, mem_ptr); (true, e, (mem_ptr + mem_len) mod 2 ^ 64)] /\
+  w_writes (gen_wrap_fixed_cl mem_ptr mem_len mb_ptr mb_len buf_ptr buf_len d e dangling) = [(true, d, mem_ptr); (true, e, (mem_ptr + mem_len) mod 2 ^ 64)] /\
+  w_fail (gen_wrap_fixed_interp mem_ptr mem_len mb_ptr mb_len buf_ptr buf_len d e dangling) = ((buf_len <? (d + 8) mod 2 ^ 64) || (buf_len <? (e + 8) mod 2 ^ 64)) /\
+  w_fail (gen_wrap_fixed_cl mem_ptr mem_len mb_ptr mb_len buf_ptr buf_len d e dangling) = w_fail (gen_wrap_fixed_interp mem_ptr mem_len mb_ptr mb_len buf_ptr buf_len d e dangling) /\
+  w_args (gen_wrap_fixed_jit mem_ptr mem_len mb_ptr mb_len buf_ptr buf_len d e dangling) = [buf_ptr; buf_len; (if mem_len =? 0 then 0 else mem_ptr); mem_len; d; e] /\
+  w_fail (gen_wrap_fixed_jit mem_ptr mem_len mb_ptr mb_len buf_ptr buf_len d e dangling) = false /\
+  Forall (fun w : wrap => w_writes w = [] /\ w_fail w = false)
+    [gen_wrap_mbuff_interp mem_ptr mem_len mb_ptr mb_len buf_ptr buf_len d e dangling; gen_wrap_mbuff_jit mem_ptr mem_len mb_ptr mb_len buf_ptr buf_len d e dangling;
+     gen_wrap_mbuff_cl mem_ptr mem_len mb_ptr mb_len buf_ptr buf_len d e dangling; gen_wrap_raw_interp mem_ptr mem_len mb_ptr mb_len buf_ptr buf_len d e dangling;
+     gen_wrap_raw_jit mem_ptr mem_len mb_ptr mb_len buf_ptr buf_len d e dangling; gen_wrap_raw_cl mem_ptr mem_len mb_ptr mb_len buf_ptr buf_len d e dangling;
+     gen_wrap_nodata_interp mem_ptr mem_len mb_ptr mb_len buf_ptr buf_len d e dangling; gen_wrap_nodata_jit mem_ptr mem_len mb_ptr mb_len buf_ptr buf_len d e dangling;
+     gen_wrap_nodata_cl mem_ptr mem_len mb_ptr mb_len buf_ptr buf_len d e dangling; gen_wrap_fixed_jit mem_ptr mem_len mb_ptr mb_len buf_ptr buf_len d e dangling].
+Proof. exact wrappers_fixed_words. Qed.
+
+Theorem C09_fixed_jit_words : forall R0 m0 mem_ptr mem_len buf_ptr buf_len d e,
+  (forall r, 0 <= R0 r < 2 ^ 64) -> 1024 <= R0 4 ->
+  [R0 7; R0 6; R0 2; R0 1; R0 8; R0 9] = [buf_ptr; buf_len; mem_ptr; mem_len; d; e] ->
+  apart (A1 R0) (A2 R0) -> apart (A2 R0) (A1 R0) -> (forall a, In a (slots R0) -> apart (A1 R0) a /\ apart (A2 R0) a) ->
+  exists R, krun (body_of gen_jit_prologue_fixed) (R0, m0) = Some (R, mfix R0 m0) /\
+    load8 (mfix R0 m0) ((d + buf_ptr) mod 2 ^ 64) = mem_ptr /\
+    load8 (mfix R0 m0) ((e + buf_ptr) mod 2 ^ 64) = (mem_ptr + mem_len) mod 2 ^ 64 /\ R 7 = buf_ptr.
+Proof. exact fixed_jit_words. Qed.
+
 Print Assumptions C09_entry_registers.
+Print Assumptions C09_r1_every_kind_every_engine.
+Print Assumptions C09_fixed_metadata_words.
+Print Assumptions C09_fixed_jit_words.
+Print Assumptions C09_jit_entry_r1.
+Print Assumptions C09_cranelift_entry_r1.
 Print Assumptions C09_jit_prologue_no_metadata.
 Print Assumptions C09_jit_prologue_metadata.
 Print Assumptions C09_jit_prologue_fixed_metadata.
